@@ -534,3 +534,33 @@ Proof.
   replace (s =? 0) with false by (symmetry; apply Z.eqb_neq; exact Hs).
   rewrite !andb_false_r. reflexivity.
 Qed.
+
+(* ------------------------------------------------------------------ records are independent *)
+(* the frame removal treats every sample by one and the same function of its own stack *)
+Lemma strip_frame_uniform ss :
+  exists g, strip_frame ss = map g ss /\
+            (forall s t, rs_addrs s = rs_addrs t -> rs_addrs (g s) = rs_addrs (g t)).
+Proof.
+  unfold strip_frame. destruct (find (qualifies ss) (seconds ss)) as [a|].
+  - exists (fun s => if has_second a s then drop_second s else s). split; [reflexivity|].
+    intros s t E. unfold has_second, second_addr. rewrite E.
+    destruct (match rs_addrs t with _ :: b :: _ => Some b | _ => None end) as [b|]; [|exact E].
+    destruct (a =? b); [|exact E]. unfold drop_second. cbn [rs_addrs]. rewrite E. reflexivity.
+  - exists (fun s => s). split; [symmetry; apply map_id|]. intros s t E. exact E.
+Qed.
+
+Lemma cpu_view_uniform_lemma : forall d, exists h : Z * list Z -> sview,
+  cpu_view d = map h (pd_samples d) /\ (forall s t, snd s = snd t -> sv_addrs (h s) = sv_addrs (h t)).
+Proof.
+  intros d. unfold cpu_view. cbv zeta.
+  set (r0 := fun s : Z * list Z => {| rs_addrs := leaf_kept (snd s);
+               rs_vals := [wrap_i64 (fst s); wrap_i64 (wrap_i64 (fst s) * wrap_i64 (wrap_i64 (pd_period d) * 1000))];
+               rs_bytes := None |}).
+  destruct (strip_frame_uniform (map r0 (pd_samples d))) as [g1 [E1 R1]]. rewrite E1.
+  destruct (strip_frame_uniform (map g1 (map r0 (pd_samples d)))) as [g2 [E2 R2]]. rewrite E2.
+  rewrite !map_map.
+  exists (fun s => {| sv_addrs := dedup_leaf (rs_addrs (g2 (g1 (r0 s)))); sv_vals := rs_vals (g2 (g1 (r0 s)));
+                      sv_bytes := rs_bytes (g2 (g1 (r0 s))) |}).
+  split; [reflexivity|]. intros s t E. cbn [sv_addrs]. f_equal. apply R2. apply R1.
+  unfold r0. cbn [rs_addrs]. rewrite E. reflexivity.
+Qed.
